@@ -683,6 +683,9 @@ func registerMisc() {
 		m.yield(th)
 		return nil
 	}
+	intrinsics["syscall.Getpagesize"] = func(m *Machine, th *Thread, fn *ssa.Function, a []Value, site ssa.Instruction) Value {
+		return m.tt.Const(64, 4096)
+	}
 	intrinsics["runtime/debug.Stack"] = func(m *Machine, th *Thread, fn *ssa.Function, a []Value, site ssa.Instruction) Value {
 		return m.makeSlice(types.Typ[types.Byte], 0, 0)
 	}
